@@ -12,8 +12,8 @@ CONSTANT NKeys
 Trace == ndJsonDeserialize("trace.ndjson")
 Key == 1..NKeys
 MaxTs == 2147483647
-VARIABLES pos, truth, proj, txns, held, acked, hasTruth, kind, lossless, lostCommit
-hvars == <<pos, truth, proj, txns, held, acked, hasTruth, kind, lossless, lostCommit>>
+VARIABLES pos, truth, proj, txns, held, acked, hasTruth, kind, lossless, lostCommit, fixp
+hvars == <<pos, truth, proj, txns, held, acked, hasTruth, kind, lossless, lostCommit, fixp>>
 Ev == Trace[pos]
 SetOf(q) == {q[i] : i \in 1..Len(q)}
 Ext(f, k, v) == [x \in DOMAIN f \cup {k} |-> IF x = k THEN v ELSE f[x]]
@@ -64,6 +64,60 @@ HeldRule(newp) ==
   \A h \in held : \A w \in Recs(newp, h.k) \ Recs(proj, h.k) :
      Check(w.type = "Rollback" \/ w.start = txns[h.t].start, "a foreign commit landed on a key held by a pessimistic lock", <<h.t, h.k, w>>)
 
+(******************************* snapshot reads (C05) *******************************)
+KeysOfPairs(ps) == [i \in 1..Len(ps) |-> ps[i].k]
+SnapRule(e) ==
+  /\ (kind \in {"c05", "c14"} /\ e.class \notin {"nil", "notfound"}) =>
+        Bad("a snapshot read over finished transactions' locks failed instead of resolving them", <<e.c, e.class, e.ts>>)
+  /\ (hasTruth /\ e.ts # MaxTs /\ e.class \in {"nil", "notfound"}) =>
+       CASE e.c = "snap_get" ->
+              IF e.class = "nil" THEN Check(e.val = Visible(truth, e.k, e.ts) /\ e.val # 0, "snapshot get differs from the committed history at its timestamp", <<e.k, e.ts, e.val, Visible(truth, e.k, e.ts)>>)
+              ELSE Check(Visible(truth, e.k, e.ts) = 0, "snapshot get found nothing although the history holds a value", <<e.k, e.ts, Visible(truth, e.k, e.ts)>>)
+         [] e.c = "snap_batchget" ->
+              /\ \A k \in SetOf(e.ks) : Check(PairVal(e.pairs, k) = Visible(truth, k, e.ts), "snapshot batch get differs from the committed history", <<k, e.ts, e.pairs>>)
+              /\ Check(SetOf(KeysOfPairs(e.pairs)) \subseteq SetOf(e.ks), "snapshot batch get returned a key that was not asked for", <<e.ks, e.pairs>>)
+         [] e.c \in {"snap_iter", "snap_riter"} ->
+              LET ks == Asc({k \in Key : InRange(k, e.lo, e.hi) /\ Visible(truth, k, e.ts) # 0})
+                  order == IF e.c = "snap_iter" THEN ks ELSE Rev(ks)
+                  want == [i \in 1..Len(order) |-> [k |-> order[i], val |-> Visible(truth, order[i], e.ts)]]
+              \* key-only scans: only the keys are compared (a store may or may not strip the values)
+              IN Check(IF e.keyonly THEN KeysOfPairs(e.pairs) = KeysOfPairs(want) ELSE e.pairs = want, "snapshot scan differs from the committed history (content, order or bounds)", <<e.c, e.lo, e.hi, e.ts, e.batch, e.pairs, want>>)
+(******************************* GC lock resolution (C14) *******************************)
+GCRule(e) ==
+  e.class = "nil" =>
+    /\ \A k \in Key : Check(e.proj.lock[k].ts = 0 \/ e.proj.lock[k].ts > e.safepoint, "a lock at or below the safe point remains after GC lock resolution", <<k, e.proj.lock[k], e.safepoint>>)
+    /\ \A k \in Key : Check(Recs(fixp, k) \subseteq Recs(e.proj, k), "GC lock resolution removed or changed an existing record", <<k>>)
+    /\ \A k \in Key :
+         LET l == fixp.lock[k] IN
+         (l.ts # 0 /\ l.ts <= e.safepoint /\ l.primary \in Key) =>
+            IF HasCommit(fixp, l.primary, l.ts)
+            THEN LET c == (CHOOSE w \in OwnRecs(fixp, l.primary, l.ts) : w.type # "Rollback").commit
+                 IN Check(l.kind = "Pessimistic" \/ \E w \in OwnRecs(e.proj, k, l.ts) : w.type # "Rollback" /\ w.commit = c,
+                          "GC did not commit a secondary of a committed transaction with its commit ts", <<k, l, c>>)
+            ELSE Check(~HasCommit(e.proj, k, l.ts), "GC committed a lock of a transaction that was not committed", <<k, l>>)
+
+RangeTaskRule(e) ==
+  \* the sub-ranges handed to the handler, ordered by start: consecutive, non-overlapping, exactly covering [lo, hi)
+  /\ (e.class = "nil" /\ ~e.failed_handler) =>
+        LET r == e.ranges IN
+        /\ Check(Len(r) > 0, "the range task handed no sub-range to its handler", <<e.lo, e.hi>>)
+        /\ Len(r) > 0 =>
+             /\ Check(r[1].s = e.lo, "the first sub-range does not start at the requested start", <<e.lo, e.hi, r>>)
+             /\ Check(r[Len(r)].e = e.hi, "the last sub-range does not end at the requested end", <<e.lo, e.hi, r>>)
+             /\ Check(\A i \in 1..(Len(r) - 1) : r[i].e = r[i + 1].s /\ r[i].e # 0, "sub-ranges are not consecutive (gap or overlap)", <<e.lo, e.hi, r>>)
+             /\ Check(\A i \in 1..Len(r) : r[i].e = 0 \/ r[i].s < r[i].e, "an empty or inverted sub-range was handed out", <<e.lo, e.hi, r>>)
+  /\ e.failed_handler => Check(e.class # "nil", "the range task reported success although a sub-range failed", <<e.lo, e.hi>>)
+DeleteRangeRule(e) ==
+  e.class = "nil" =>
+    \A k \in Key :
+       IF InRange(k, e.lo, e.hi)
+       THEN Check(e.proj.writes[k] = <<>> /\ e.proj.lock[k].ts = 0, "delete-range left data of a key inside the range", <<k, e.lo, e.hi>>)
+       ELSE Check(e.proj.writes[k] = e.before.writes[k] /\ e.proj.lock[k] = e.before.lock[k], "delete-range touched a key outside the range", <<k, e.lo, e.hi>>)
+SafePointRule(e) ==
+  \A c \in {e.get, e.batchget, e.scan} :
+     /\ e.ts < e.sp => Check(c = "abortedbygc", "a snapshot read below the learned transaction safe point was served", <<e.ts, e.sp, c>>)
+     /\ e.ts >= e.sp => Check(c # "abortedbygc", "a snapshot read at or above the safe point was refused", <<e.ts, e.sp, c>>)
+
 (******************************* end-of-run rules *******************************)
 FinalRules ==
   /\ \A k \in Key : Check(truth.lock[k].ts = 0, "a lock remains after recovery", <<k, truth.lock[k]>>)
@@ -103,41 +157,42 @@ FinalRules ==
        (txns[t].beginSeq > a.seq) => Check(txns[t].start >= a.commit, "a transaction began after an acknowledged commit but has a smaller start ts", <<t, a>>)
 
 (********************************** events **********************************)
-Init == pos = 1 /\ truth = EmptyProj /\ proj = EmptyProj /\ txns = <<>> /\ held = {} /\ acked = {} /\ hasTruth = FALSE /\ kind = "none" /\ lossless = FALSE /\ lostCommit = {}
-Unch == UNCHANGED <<truth, proj, txns, held, acked, hasTruth, kind, lossless, lostCommit>>
+Init == pos = 1 /\ truth = EmptyProj /\ proj = EmptyProj /\ txns = <<>> /\ held = {} /\ acked = {} /\ hasTruth = FALSE /\ kind = "none" /\ lossless = FALSE /\ lostCommit = {} /\ fixp = EmptyProj
+Unch == UNCHANGED <<truth, proj, txns, held, acked, hasTruth, kind, lossless, lostCommit, fixp>>
 Next ==
   /\ pos <= Len(Trace) /\ pos' = pos + 1
   /\ LET e == Ev IN
      CASE e.ev = "reset" ->
-            /\ truth' = e.truth /\ hasTruth' = e.hastruth /\ proj' = EmptyProj /\ txns' = <<>> /\ held' = {} /\ acked' = {} /\ kind' = e.kind /\ lossless' = e.lossless /\ lostCommit' = {}
+            /\ truth' = e.truth /\ hasTruth' = e.hastruth /\ proj' = EmptyProj /\ txns' = <<>> /\ held' = {} /\ acked' = {} /\ kind' = e.kind /\ lossless' = e.lossless /\ lostCommit' = {} /\ fixp' = EmptyProj
        [] e.ev = "rpc" ->
             \* a commit-point request (2PC: Commit) whose outcome the client could not learn
             LET lost == IF e.cmd = "Commit" /\ e.fault \in {"drop_req", "drop_resp", "crash_before", "crash_after"} THEN {e.req.start} ELSE {}
             IN IF e.executed
-               THEN /\ StateRules(e.proj) /\ HeldRule(e.proj) /\ proj' = e.proj /\ lostCommit' = lostCommit \cup lost
-                    /\ UNCHANGED <<truth, txns, held, acked, hasTruth, kind, lossless>>
-               ELSE lostCommit' = lostCommit \cup lost /\ UNCHANGED <<truth, proj, txns, held, acked, hasTruth, kind, lossless>>
+               THEN /\ (kind # "c14rt" => StateRules(e.proj)) /\ HeldRule(e.proj) /\ proj' = e.proj /\ lostCommit' = lostCommit \cup lost
+                    /\ UNCHANGED <<truth, txns, held, acked, hasTruth, kind, lossless, fixp>>
+               ELSE lostCommit' = lostCommit \cup lost /\ UNCHANGED <<truth, proj, txns, held, acked, hasTruth, kind, lossless, fixp>>
        [] e.ev = "api_call" ->
             IF e.c \in {"commit", "rollback"} /\ e.txn \in DOMAIN txns
             THEN /\ held' = {h \in held : h.t # e.txn}
                  /\ txns' = [txns EXCEPT ![e.txn].state = "ending"]
-                 /\ UNCHANGED <<truth, proj, acked, hasTruth, kind, lossless, lostCommit>>
+                 /\ UNCHANGED <<truth, proj, acked, hasTruth, kind, lossless, lostCommit, fixp>>
             ELSE Unch
        [] e.ev = "commit_buffer" ->
             \* an insert that was deleted again inside the transaction is only an existence check: it writes nothing
             /\ txns' = [txns EXCEPT ![e.txn].wrote = {e.buffer[i].k : i \in 1..Len(e.buffer)}
                                                       \ {k \in txns[e.txn].inserted : txns[e.txn].buf[k] = 0}]
-            /\ UNCHANGED <<truth, proj, held, acked, hasTruth, kind, lossless, lostCommit>>
+            /\ UNCHANGED <<truth, proj, held, acked, hasTruth, kind, lossless, lostCommit, fixp>>
        [] e.ev = "api_ret" ->
             IF e.c = "begin"
             THEN /\ (IF e.class = "nil" THEN txns' = Ext(txns, e.txn, NewTxn(e.client, e.start, e.pess, e.seq)) ELSE UNCHANGED txns)
-                 /\ UNCHANGED <<truth, proj, held, acked, hasTruth, kind, lossless, lostCommit>>
+                 /\ UNCHANGED <<truth, proj, held, acked, hasTruth, kind, lossless, lostCommit, fixp>>
             ELSE IF e.c = "recovery_read"
             THEN /\ Unch
                  \* a reader after the crash sees, for every transaction, all of its writes or none of them
                  /\ (e.class = "nil" /\ hasTruth) =>
                       \A k \in Key : Check(PairVal(e.pairs, k) = Visible(truth, k, e.ts),
                                            "recovery read differs from the committed history at its timestamp", <<k, e.ts>>)
+            ELSE IF e.c \in {"snap_get", "snap_batchget", "snap_iter", "snap_riter"} THEN Unch /\ SnapRule(e)
             ELSE IF ~(e.txn \in DOMAIN txns) THEN Unch
             ELSE LET t == e.txn T == txns[t] IN
               CASE e.c = "get" ->
@@ -162,17 +217,17 @@ Next ==
                             THEN txns' = [txns EXCEPT ![t].buf[req.k] = IF e.c = "delete" THEN 0 ELSE req.v,
                                                       ![t].inserted = IF e.c = "insert" THEN @ \cup {req.k} ELSE @]
                             ELSE UNCHANGED txns)
-                        /\ UNCHANGED <<truth, proj, held, acked, hasTruth, kind, lossless, lostCommit>>
+                        /\ UNCHANGED <<truth, proj, held, acked, hasTruth, kind, lossless, lostCommit, fixp>>
                 [] e.c = "lock" ->
                      LET req == e
                      IN IF e.class = "nil"
                         THEN /\ txns' = [txns EXCEPT ![t].lockfts = [k \in Key |-> IF k \in SetOf(req.ks) /\ @[k] = 0 THEN e.fts ELSE @[k]]]
                              /\ held' = held \cup {[t |-> t, k |-> k] : k \in SetOf(req.ks)}
-                             /\ UNCHANGED <<truth, proj, acked, hasTruth, kind, lossless, lostCommit>>
+                             /\ UNCHANGED <<truth, proj, acked, hasTruth, kind, lossless, lostCommit, fixp>>
                              \* a locking read returns the newest committed value
                              /\ \A i \in 1..Len(e.vals) : Check(e.vals[i].val = Visible(proj, e.vals[i].k, MaxTs),
                                                                "locking read did not return the newest committed value", <<t, e.vals[i], Visible(proj, e.vals[i].k, MaxTs)>>)
-                        ELSE /\ txns' = [txns EXCEPT ![t].lockfail = TRUE] /\ UNCHANGED <<truth, proj, held, acked, hasTruth, kind, lossless, lostCommit>>
+                        ELSE /\ txns' = [txns EXCEPT ![t].lockfail = TRUE] /\ UNCHANGED <<truth, proj, held, acked, hasTruth, kind, lossless, lostCommit, fixp>>
                 [] e.c = "commit" ->
                      /\ txns' = [txns EXCEPT ![t].state = "ended", ![t].commit = e.commit,
                                              ![t].ack = CASE e.class = "nil" -> "nil" [] e.class = "undetermined" -> "undetermined"
@@ -180,10 +235,10 @@ Next ==
                      /\ acked' = IF e.class = "nil" /\ T.wrote # {} THEN acked \cup {[seq |-> e.seq, commit |-> e.commit]} ELSE acked
                      \* 'undetermined' only when a request that could have moved the commit point was sent and its outcome is unknown
                      /\ e.class = "undetermined" => Check(T.start \in lostCommit, "Commit answered 'undetermined' although no commit-point request was lost", <<t, T.start>>)
-                     /\ UNCHANGED <<truth, proj, held, hasTruth, kind, lossless, lostCommit>>
+                     /\ UNCHANGED <<truth, proj, held, hasTruth, kind, lossless, lostCommit, fixp>>
                 [] e.c = "rollback" ->
                      /\ txns' = [txns EXCEPT ![t].state = "ended", ![t].ack = "rollback"]
-                     /\ UNCHANGED <<truth, proj, held, acked, hasTruth, kind, lossless, lostCommit>>
+                     /\ UNCHANGED <<truth, proj, held, acked, hasTruth, kind, lossless, lostCommit, fixp>>
                 [] OTHER -> Unch
        [] e.ev = "drained" ->
             /\ Unch
@@ -191,7 +246,12 @@ Next ==
             /\ (e.ok /\ lossless) =>
                   \A t \in DOMAIN txns : txns[t].state = "ended" /\ txns[t].ack # "none" =>
                      \A k \in Key : Check(e.proj.lock[k].ts # txns[t].start, "a lock of a finished transaction is left behind", <<t, k, e.proj.lock[k]>>)
-       [] e.ev = "final" -> Unch /\ FinalRules
+       [] e.ev = "final" -> Unch /\ (kind # "c14rt" => FinalRules)   \* a delete-range scenario destroys data on purpose
+       [] e.ev = "fixture" -> fixp' = e.proj /\ proj' = e.proj /\ UNCHANGED <<truth, txns, held, acked, hasTruth, kind, lossless, lostCommit>>
+       [] e.ev = "gc_done" -> Unch /\ GCRule(e)
+       [] e.ev = "rangetask" -> Unch /\ RangeTaskRule(e)
+       [] e.ev = "delete_range" -> Unch /\ DeleteRangeRule(e)
+       [] e.ev = "safepoint_read" -> Unch /\ SafePointRule(e)
        [] e.ev = "livelock" -> Unch /\ Bad("a call kept sending requests without end (no progress within the RPC budget of one scenario)", <<e.client, e.cmd>>)
        [] e.ev = "store_panic" -> Unch /\ Bad("a request reached a region that does not contain its key (the store refused it)", <<e.client, e.cmd, e.req>>)
        [] OTHER -> Unch
